@@ -381,11 +381,12 @@ theorem sliceElems_cons (o : Opts) (t : Ty) (x : J) (rest : JL) (hx : x ≠ .nul
 def gzMapElem (o : Opts) (t : Ty) (x : J) : R Val :=
   match t with
   | .prim p => mapElemPrim p x
-  | .ptr (.prim _) => .error .unmodelled
+  | .ptr (.prim p) => (mapElemPrim p x).map .ptr
   | t => withValue o [] t x
 
 theorem gzMapElem_prim (o : Opts) (p : Prim) (x : J) : gzMapElem o (.prim p) x = mapElemPrim p x := rfl
-theorem gzMapElem_ptr_prim (o : Opts) (p : Prim) (x : J) : gzMapElem o (.ptr (.prim p)) x = .error .unmodelled := rfl
+theorem gzMapElem_ptr_prim (o : Opts) (p : Prim) (x : J) :
+    gzMapElem o (.ptr (.prim p)) x = (mapElemPrim p x).map .ptr := rfl
 theorem gzMapElem_other (o : Opts) (t : Ty) (x : J) (h : t.primish = false) :
     gzMapElem o t x = withValue o [] t x := by
   unfold gzMapElem
@@ -1128,7 +1129,12 @@ theorem mapElem_agree (o : Opts) (t : Ty) (IH : AgreeTy o t) (x : J) (h : ElemOK
       rw [mapElem_prim_agree p x a b hu hs]
     | ptr t' =>
       cases t' with
-      | prim p => rw [gzMapElem_ptr_prim] at hu; cases hu
+      | prim p =>
+        rw [gzMapElem_ptr_prim, R.map_ok] at hu
+        rw [stdVal_ptr_prim p x h.ne_null, R.map_ok] at hs
+        obtain ⟨a', hu', rfl⟩ := hu
+        obtain ⟨b', hs', rfl⟩ := hs
+        rw [mapElem_prim_agree p x a' b' hu' hs']
       | _ => simp [Ty.primish] at hp
     | _ => simp [Ty.primish] at hp
 
